@@ -20,6 +20,7 @@ RULE = ("for every option of the input/output/rst sections (keys read from confi
         "output.directory = absolute path resolved against cwd or the setting file's directory; an effective wrong-typed "
         "value must raise and document() must not run. Non-trivial: >=1 option set in >=2 sources with different values; "
         "distinct by SHA-1 of the case; coverage lists the (option, source subset) pairs seen")
+RULE_MORE = 'decoy configuration files in platform locations, runs without a per-user file, CMINXDIR with a tilde; near-duplicate and backslash patterns.'
 ASSUMPTIONS = ["confuse honours CMINXDIR for the per-user configuration directory", "bare strings for list options and "
                "mappings for headers are not injected (confuse converts them; the property does not define them)"]
 BUDGET = {"quick": {"shards": 8, "examples": 200}, "thorough": {"shards": 16, "examples": 3000}}
